@@ -19,8 +19,13 @@ C15 run <checkHeader> <unauthAct> <noMatchAct> <errAct> <conn> <user> <mailFrom>
    | AU <arg>* | AN <arg>* | AE <arg>*   what follows the action word of unauth_action / no_match_action / err_action in the
                          configuration (`reject 553 5.7.1 "text"`: AU 553 5.7.1 <text>); with the action letter `x` the whole
                          argument list of the directive (a word that is no action, or nothing at all)
-   | N … | H … | G … | GF … | GS …    replay material for the Go side (ignored here)
+   | U C 0 | us <optional> <kind> <err> | u <key> <val>* … | us …     user_to_email is a table.chain: every `us` group opens a
+                         step (`step` / `optional_step` with a table of kind I T S M L O), the `u` groups after it are its rows;
+                         `P C 0 | ps … | p …` the same for prepare_email
+   | N … | H … | G … | GF … | GS … | Z …   replay material for the Go side (ignored here)
 ```
+`C15 sasl <ok> <normalised login name> <authzid> <authcid> <account whose password is sent>`: one AUTH PLAIN exchange
+(`saslPlain`; a password is the name of its account) → `auth-ok <AuthUser>` / `auth-failed`.
 The action arguments go through `parseActionDirective`; a written directive that does not parse makes `Init` fail:
 answer `config-refused`.  A refusal answered with a configured reply is `<reason>:<code>:<enh>><code>:<enh>:<text>/<flags>`.
 Table kind F = the real `table.file`: `U F <err> <style>`, the `u` groups are the entry lines of the
@@ -56,6 +61,10 @@ structure TabSpec where
 structure Spec where
   prep : TabSpec := {}
   u2e : TabSpec := {}
+  -- table kind C (table.chain): the steps (optional?, table), reversed while parsing; the `p` / `u` rows
+  -- that follow a `ps` / `us` group belong to that step
+  prepSteps : List (Bool × TabSpec) := []
+  u2eSteps : List (Bool × TabSpec) := []
   fn : List (Str × Option Str) := []
   an : List (Str × Option Str) := []
   fromFields : List FromField := []      -- reversed while parsing
@@ -79,7 +88,15 @@ def actionArgs? (letter : String) (args : List Str) : Option (List Str) :=
   | _ => none
 
 def kindOk (k : String) : Bool :=
-  k == "I" || k == "T" || k == "S" || k == "M" || k == "L" || k == "O" || k == "F"
+  k == "I" || k == "T" || k == "S" || k == "M" || k == "L" || k == "O" || k == "F" || k == "C"
+
+def stepKindOk (k : String) : Bool :=
+  k == "I" || k == "T" || k == "S" || k == "M" || k == "L" || k == "O"
+
+def addRow (steps : List (Bool × TabSpec)) (row : Str × List Str) : Option (List (Bool × TabSpec)) :=
+  match steps with
+  | [] => none
+  | (o, t) :: rest => some ((o, { t with rows := t.rows ++ [row] }) :: rest)
 
 def parseGroup (s : Spec) (g : List String) : Option Spec :=
   match g with
@@ -101,10 +118,21 @@ def parseGroup (s : Spec) (g : List String) : Option Spec :=
   | "AU" :: as => do pure { s with actArgs := ("AU", ← as.mapM unhexRunes?) :: s.actArgs }
   | "AN" :: as => do pure { s with actArgs := ("AN", ← as.mapM unhexRunes?) :: s.actArgs }
   | "AE" :: as => do pure { s with actArgs := ("AE", ← as.mapM unhexRunes?) :: s.actArgs }
+  | ["ps", o, k, e] => do
+    if !stepKindOk k || s.prep.kind != "C" then none
+    pure { s with prepSteps := ((← bool? o), { kind := k, err := (← bool? e) }) :: s.prepSteps }
+  | ["us", o, k, e] => do
+    if !stepKindOk k || s.u2e.kind != "C" then none
+    pure { s with u2eSteps := ((← bool? o), { kind := k, err := (← bool? e) }) :: s.u2eSteps }
   | "p" :: k :: vs => do
-    pure { s with prep := { s.prep with rows := s.prep.rows ++ [(← unhexRunes? k, ← vs.mapM unhexRunes?)] } }
+    let row := (← unhexRunes? k, ← vs.mapM unhexRunes?)
+    if s.prep.kind == "C" then pure { s with prepSteps := (← addRow s.prepSteps row) }
+    else pure { s with prep := { s.prep with rows := s.prep.rows ++ [row] } }
   | "u" :: k :: vs => do
-    pure { s with u2e := { s.u2e with rows := s.u2e.rows ++ [(← unhexRunes? k, ← vs.mapM unhexRunes?)] } }
+    let row := (← unhexRunes? k, ← vs.mapM unhexRunes?)
+    if s.u2e.kind == "C" then pure { s with u2eSteps := (← addRow s.u2eSteps row) }
+    else pure { s with u2e := { s.u2e with rows := s.u2e.rows ++ [row] } }
+  | ["Z", _, _] => some s
   | ["fn", i, ok, o] => do
     let o ← unhexRunes? o
     let r := if (← bool? ok) then some o else none
@@ -155,6 +183,10 @@ def TabSpec.table (t : TabSpec) : Table :=
     .multi (fun k => if t.err then .error () else .ok (fileLookup t.rows k))
   else
     .multi (fun k => if t.err then .error () else .ok ((find t.rows k).getD []))
+
+/-- the table of a directive: a plain one, or (kind C) the chain of its steps -/
+def tableOf (t : TabSpec) (stepsRev : List (Bool × TabSpec)) : Table :=
+  if t.kind == "C" then chainTable (stepsRev.reverse.map fun p => (p.1, p.2.table)) else t.table
 
 def reasonName : Reason → String
   | .authRequired => "authRequired"
@@ -295,8 +327,8 @@ def handle (toks : List String) : String :=
       let dirs : Directives := {
         checkHeader := written 0 ch
         unauthAction := ua.join, noMatchAction := na.join, errAction := ea.join
-        userToEmail := written 6 s.u2e.table
-        emailPrepare := written 7 s.prep.table
+        userToEmail := written 6 (tableOf s.u2e s.u2eSteps)
+        emailPrepare := written 7 (tableOf s.prep s.prepSteps)
         fromNorm := fun a => (find s.fn a).join
         authNorm := fun a => (find s.an a).join }
       let cfg : Cfg := dirs.cfg
@@ -304,6 +336,15 @@ def handle (toks : List String) : String :=
       let hdr : Header := { fromFields := fromFields, senderFields := senderFields }
       s!"{showRes (checkSender cfg c mf)} {showRes (checkBody cfg c hdr)}"
       | _, _, _ => "bad-op"
+    | _, _, _, _, _ => "bad-op"
+  | [["sasl", ok, nf, authzid, authcid, pwOwner]] =>
+    -- one AUTH PLAIN exchange: `ok nf` = the normaliser's answer for the login name (ok = 0: refused);
+    -- the client sends the password of the account `pwOwner`; a password is the name of its account
+    match bool? ok, unhexRunes? nf, unhexRunes? authzid, unhexRunes? authcid, unhexRunes? pwOwner with
+    | some ok, some nf, some z, some c, some o =>
+      match saslPlain (fun _ => if ok then some nf else none) (fun name pw => name == pw) z c o with
+      | some u => s!"auth-ok {hexRunes u}"
+      | none => "auth-failed"
     | _, _, _, _, _ => "bad-op"
   | [["site", _, msg]] =>
     match Reason.all.find? (fun r => strHex r.message == msg) with
